@@ -5,14 +5,37 @@
 #pragma CPROVER check disable "signed-overflow"
 #pragma CPROVER check disable "conversion"
 
+/* proof steps usable in ghost code and lemma harnesses: STEP states a cut (obligation, then available);
+ * USE applies an already proved lemma (its hypothesis is an obligation, its conclusion is then available) */
+#define STEP(P, msg) do { __CPROVER_assert(P, msg); __CPROVER_assume(P); } while (0)
+#define USE(REQ, ENS, msg) do { __CPROVER_assert(REQ, "hypothesis of " msg); __CPROVER_assume(ENS); } while (0)
+
+/* place of a 64-bit year in the 400-year cycle, kept OPAQUE: the definition IDX400(x) == x mod 400 is revealed
+ * only where a proof needs it, so that formulas do not fill up with 64-bit division circuits */
+int __CPROVER_uninterpreted_idx400(year_t x);
+#define IDX400(x) __CPROVER_uninterpreted_idx400(x)
+#define REVEAL_IDX400(x) __CPROVER_assume(IDX400(x) == (int)FM(x, 400))
+
+/* the small-year ordinal / leap flag / cycle index as OPAQUE function symbols.  Inside n_day only the lemma facts
+ * about them are used (stated with these symbols); each lemma's own proof reveals the definitions. */
+int __CPROVER_uninterpreted_ordi(int e, int m, int d);
+int __CPROVER_uninterpreted_leapi(int e);
+int __CPROVER_uninterpreted_fmi(int e);
+#define ORDI(e, m, d) __CPROVER_uninterpreted_ordi(e, m, d)
+#define LEAPI(e) (__CPROVER_uninterpreted_leapi(e) != 0)
+#define FMI(e) __CPROVER_uninterpreted_fmi(e)
+#define REVEAL_ORDI(e, m, d) __CPROVER_assume(ORDI(e, m, d) == ORD_I(e, m, d))
+#define REVEAL_LEAPI(e) __CPROVER_assume(__CPROVER_uninterpreted_leapi(e) == (LEAP_I(e) ? 1 : 0))
+#define REVEAL_FMI(e) __CPROVER_assume(FMI(e) == FM400_I(e))
+
 bool is_leap_year(year_t y)
 __CPROVER_ensures(__CPROVER_return_value == (LEAP(y) ? 1 : 0))
-__CPROVER_ensures(__CPROVER_return_value == (LEAP((int)FM(y, 400)) ? 1 : 0))
+__CPROVER_ensures(__CPROVER_return_value == (LEAPI(IDX400(y)) ? 1 : 0))
 __CPROVER_assigns();
 
 int year_index(year_t y, month_t m)
 __CPROVER_requires(1 <= m && m <= 12 && y < INT64_MAX)
-__CPROVER_ensures(__CPROVER_return_value == FM(y + (m > 2 ? 1 : 0), 400))
+__CPROVER_ensures(__CPROVER_return_value == IDX400(y + (m > 2 ? 1 : 0)))
 __CPROVER_ensures(0 <= __CPROVER_return_value && __CPROVER_return_value < 400)
 __CPROVER_assigns();
 
@@ -28,14 +51,12 @@ __CPROVER_assigns();
 
 int days_per_year(year_t y, month_t m)
 __CPROVER_requires(1 <= m && m <= 12 && y < INT64_MAX)
-__CPROVER_ensures(__CPROVER_return_value == 365 + (LEAP(y + (m > 2 ? 1 : 0)) ? 1 : 0))
-__CPROVER_ensures(__CPROVER_return_value == 365 + (LEAP((int)FM(y + (m > 2 ? 1 : 0), 400)) ? 1 : 0))
+__CPROVER_ensures(__CPROVER_return_value == 365 + (LEAPI(IDX400(y + (m > 2 ? 1 : 0))) ? 1 : 0))
 __CPROVER_assigns();
 
 int days_per_month(year_t y, month_t m)
 __CPROVER_requires(1 <= m && m <= 12)
-__CPROVER_ensures(__CPROVER_return_value == DIM(LEAP(y), m))
-__CPROVER_ensures(__CPROVER_return_value == DIM(LEAP((int)FM(y, 400)), m))
+__CPROVER_ensures(__CPROVER_return_value == DIM(LEAPI(IDX400(y)), m))
 __CPROVER_assigns();
 
 /* ---- code-free lemmas used as ghost calls inside n_day ----
@@ -46,23 +67,15 @@ __CPROVER_assigns();
 #define SMALLY(e) (-3000 <= (e) && (e) <= 3000)
 
 /* quotients of int64 by 146097 are small */
-#define lemma_quot_bounds_REQ(cd, d) (1)
-#define lemma_quot_bounds_ENS(cd, d) \
-  (-QBOUND < (cd) / 146097 && (cd) / 146097 < QBOUND && -QBOUND < (d) / 146097 && (d) / 146097 < QBOUND && \
-   -146097 < (cd) % 146097 && (cd) % 146097 < 146097 && -146097 < (d) % 146097 && (d) % 146097 < 146097)
-void lemma_quot_bounds(diff_t cd, diff_t d)
-__CPROVER_requires(lemma_quot_bounds_REQ(cd, d))
-__CPROVER_ensures(lemma_quot_bounds_ENS(cd, d))
-__CPROVER_assigns();
+#define lemma_quot_bounds_REQ(cd, d, qc, qd, rc, rd) ((qc) == (cd) / 146097 && (qd) == (d) / 146097 && (rc) == (cd) % 146097 && (rd) == (d) % 146097)
+#define lemma_quot_bounds_ENS(cd, d, qc, qd, rc, rd) \
+  (-QBOUND < (qc) && (qc) < QBOUND && -QBOUND < (qd) && (qd) < QBOUND && -146097 < (rc) && (rc) < 146097 && -146097 < (rd) && (rd) < 146097 && \
+   (Z)(cd) == (Z)146097 * (qc) + (rc) && (Z)(d) == (Z)146097 * (qd) + (rd))
 
-/* a year x that is a multiple of 400 away from a small year has that small year's place in the cycle */
-#define lemma_shift400_REQ(x, qc, qd) \
-  (-QBOUND < (qc) && (qc) < QBOUND && -QBOUND < (qd) && (qd) < QBOUND && SMALLY((Z)(x) - (Z)K400(qc, qd)))
-#define lemma_shift400_ENS(x, qc, qd) ((int)FM(x, 400) == FM((int)((x) - K400(qc, qd)), 400))
-void lemma_shift400(year_t x, year_t qc, year_t qd)
-__CPROVER_requires(lemma_shift400_REQ(x, qc, qd))
-__CPROVER_ensures(lemma_shift400_ENS(x, qc, qd))
-__CPROVER_assigns();
+/* a year x that is a multiple of 400 away from a small year e has that small year's place in the cycle */
+#define lemma_shift400_REQ(x, qc, qd, e) \
+  (-QBOUND < (qc) && (qc) < QBOUND && -QBOUND < (qd) && (qd) < QBOUND && SMALLY(e) && (Z)(e) == (Z)(x) - (Z)K400(qc, qd))
+#define lemma_shift400_ENS(x, qc, qd, e) (IDX400(x) == FMI(e))
 
 /* ---- small arithmetic lemmas (each proved on its own, with only its own hypotheses) ---- */
 #define FITS64(v) ((Z)INT64_MIN <= (v) && (v) <= (Z)INT64_MAX)
@@ -110,35 +123,74 @@ __CPROVER_assigns();
 #define lemma_lin_fits_ENS(RY, oy, oy1, o, T, omin, omax) (FITS64((Z)(RY)))
 
 #define NDAY_T(y, m, d, cd) (ORD(y, m, 1) + (Z)(d) - 1 + (Z)(cd))
-#define LIFT_E(ey, d0, cd0) ((Z)(ey) - (Z)K400((cd0) / 146097, (d0) / 146097))
+#define LIFT_E(ey, qc, qd) ((Z)(ey) - (Z)K400(qc, qd))
 #define LIFT_RY(y, ey, oey) ((Z)(y) + (Z)(ey) - (Z)(oey))
-#define LIFT_R(d0, cd0) ((int)((cd0) % 146097) + (int)((d0) % 146097))
+#define LIFT_R(rc, rd) ((int)(rc) + (int)(rd))
 #define WRAP_RY(y, ey, oey) ((year_t)((uint64_t)(y) + ((uint64_t)(ey) - (uint64_t)(oey))))
 
 /* from the small-year conservation law to the 64-bit year / 128-bit ordinal;
  * ry is the result year exactly as the code computes it, y + (ey - oey), with wrap-around made explicit */
-#define lemma_nday_lift_REQ(y, m0, d0, cd0, ey, oey, m1, d1, ry) \
+#define lemma_nday_lift_REQ(y, m0, d0, cd0, qc, qd, rc, rd, ey, oey, m1, d1, ry) \
   (1 <= (m0) && (m0) <= 12 && 1 <= (m1) && (m1) <= 12 && 1 <= (d1) && (d1) <= 31 && (oey) == (y) % 400 && \
    (ry) == WRAP_RY(y, ey, oey) && \
+   -QBOUND < (qc) && (qc) < QBOUND && -QBOUND < (qd) && (qd) < QBOUND && -146097 < (rc) && (rc) < 146097 && -146097 < (rd) && (rd) < 146097 && \
+   (Z)(cd0) == (Z)146097 * (qc) + (rc) && (Z)(d0) == (Z)146097 * (qd) + (rd) && \
    ORD_MIN <= NDAY_T(y, m0, d0, cd0) && NDAY_T(y, m0, d0, cd0) <= ORD_MAX && \
-   -1300 <= LIFT_E(ey, d0, cd0) && LIFT_E(ey, d0, cd0) <= 2100 && \
-   ORD_I((int)LIFT_E(ey, d0, cd0), m1, (int)(d1)) == ORD_I((int)(oey), m0, 1) + LIFT_R(d0, cd0) - 1)
-#define lemma_nday_lift_ENS(y, m0, d0, cd0, ey, oey, m1, d1, ry) \
+   -1300 <= LIFT_E(ey, qc, qd) && LIFT_E(ey, qc, qd) <= 2100 && \
+   ORDI((int)LIFT_E(ey, qc, qd), m1, (int)(d1)) == ORDI((int)(oey), m0, 1) + LIFT_R(rc, rd) - 1)
+#define lemma_nday_lift_ENS(y, m0, d0, cd0, qc, qd, rc, rd, ey, oey, m1, d1, ry) \
   (FITS64(LIFT_RY(y, ey, oey)) && (Z)(ry) == LIFT_RY(y, ey, oey) && \
    ORD(ry, m1, d1) == NDAY_T(y, m0, d0, cd0) && \
-   (LEAP((Z)(ry)) ? 1 : 0) == (LEAP((int)LIFT_E(ey, d0, cd0)) ? 1 : 0))
-void lemma_nday_lift(year_t y, int m0, diff_t d0, diff_t cd0, year_t ey, year_t oey, int m1, diff_t d1, year_t ry)
-__CPROVER_requires(lemma_nday_lift_REQ(y, m0, d0, cd0, ey, oey, m1, d1, ry))
-__CPROVER_ensures(lemma_nday_lift_ENS(y, m0, d0, cd0, ey, oey, m1, d1, ry))
-__CPROVER_assigns();
+   (LEAP((Z)(ry)) ? 1 : 0) == (LEAPI((int)LIFT_E(ey, qc, qd)) ? 1 : 0))
 
-/* day ordinal the result of n_day must have: days are counted from the first of month m */
+/* ---- facts about the small (32-bit) ordinal ORD_I used step by step inside n_day ---- */
+#define SMALL_E(e) (-3000 <= (e) && (e) <= 3000)
+/* anchor: the cheap small-year forms agree with the specification */
+#define lemma_I_anchor_REQ(e, m, d) (I_DOMAIN(e) && 1 <= (m) && (m) <= 12 && 1 <= (d) && (d) <= 31)
+#define lemma_I_anchor_ENS(e, m, d) ((Z)ORD_I(e, m, d) == ORD((Z)(e), m, d) && (LEAP_I(e) ? 1 : 0) == (LEAP(e) ? 1 : 0) && FM400_I(e) == FM(e, 400))
+#define lemma_I_sk_REQ(k) (0 <= (k) && (k) <= 1000)
+#define lemma_I_sk_ENS(k) (SK(k) == SK_D(k))
+#define CYCM(m) ((m) > 2 ? 1 : 0)
+#define lemma_I_period_REQ(e, j, m, d) (SMALL_E(e) && -3 <= (j) && (j) <= 3 && 1 <= (m) && (m) <= 12 && 1 <= (d) && (d) <= 31)
+#define lemma_I_period_ENS(e, j, m, d) (ORDI((e) + 400 * (j), m, d) == ORDI(e, m, d) + 146097 * (j))
+#define lemma_I_leapidx_REQ(e) (SMALL_E(e))
+#define lemma_I_leapidx_ENS(e) ((LEAPI(FMI(e)) ? 1 : 0) == (LEAPI(e) ? 1 : 0) && 0 <= FMI(e) && FMI(e) < 400)
+/* the cycle index advances with the year */
+#define lemma_I_fmstep_REQ(e, c) (SMALL_E(e) && 0 <= (c) && (c) <= 100)
+#define lemma_I_fmstep_ENS(e, c) (FMI((e) + (c)) == (FMI(e) + (c) >= 400 ? FMI(e) + (c) - 400 : FMI(e) + (c)))
+#define lemma_I_yearstep_REQ(e, m) (SMALL_E(e) && 1 <= (m) && (m) <= 12)
+#define lemma_I_yearstep_ENS(e, m) (ORDI((e) + 1, m, 1) == ORDI(e, m, 1) + 365 + (LEAPI((e) + CYCM(m)) ? 1 : 0))
+#define lemma_I_centstep_REQ(e, m) (SMALL_E(e) && 1 <= (m) && (m) <= 12)
+#define lemma_I_centstep_ENS(e, m) (ORDI((e) + 100, m, 1) == ORDI(e, m, 1) + (SK(FMI((e) + CYCM(m)) + 100) - SK(FMI((e) + CYCM(m)))))
+#define lemma_I_4step_REQ(e, m) (SMALL_E(e) && 1 <= (m) && (m) <= 12)
+#define lemma_I_4step_ENS(e, m) (ORDI((e) + 4, m, 1) == ORDI(e, m, 1) + (SK(FMI((e) + CYCM(m)) + 4) - SK(FMI((e) + CYCM(m)))))
+#define lemma_I_monthstep_REQ(e, m) (SMALL_E(e) && 1 <= (m) && (m) <= 12)
+#define lemma_I_monthstep_ENS(e, m) ((m) < 12 ? ORDI(e, (m) + 1, 1) == ORDI(e, m, 1) + DIM(LEAPI(e), m) : ORDI((e) + 1, 1, 1) == ORDI(e, 12, 1) + 31)
+/* the ordinal is affine in the day of the month */
+#define lemma_I_day_REQ(e, m, d) (SMALL_E(e) && 1 <= (m) && (m) <= 12 && 1 <= (d) && (d) <= 400)
+#define lemma_I_day_ENS(e, m, d) (ORDI(e, m, d) == ORDI(e, m, 1) + (d) - 1)
+
+/* n_day: the result is the date whose day ordinal is NDAY_T = ORD(y,m,1) + d - 1 + cd.
+ * The 128-bit statements are kept OPAQUE (uninterpreted predicates) in the contract and revealed only at
+ * the points of a proof that need them, so that the other obligations do not carry 128-bit dividers. */
+__CPROVER_bool __CPROVER_uninterpreted_nday_pre(year_t y, int m, diff_t d, diff_t cd);
+__CPROVER_bool __CPROVER_uninterpreted_nday_post(year_t ry, int rm, int rd, year_t y, int m, diff_t d, diff_t cd);
+#define NDAY_PRE(y, m, d, cd) __CPROVER_uninterpreted_nday_pre(y, m, d, cd)
+#define NDAY_POST(ry, rm, rd, y, m, d, cd) __CPROVER_uninterpreted_nday_post(ry, rm, rd, y, m, d, cd)
+/* definitions */
+#define NDAY_PRE_DEF(y, m, d, cd) (ORD_MIN <= NDAY_T(y, m, d, cd) && NDAY_T(y, m, d, cd) <= ORD_MAX)
+#define NDAY_POST_DEF(ry, rm, rd, y, m, d, cd) (VALID_YMD(ry, rm, rd) && ORD(ry, rm, rd) == NDAY_T(y, m, d, cd))
+/* reveal a definition at one argument tuple (an instance of the defining axiom) */
+#define REVEAL_NDAY_PRE(y, m, d, cd) __CPROVER_assume(NDAY_PRE(y, m, d, cd) == (NDAY_PRE_DEF(y, m, d, cd) ? 1 : 0))
+#define REVEAL_NDAY_POST(ry, rm, rd, y, m, d, cd) __CPROVER_assume(NDAY_POST(ry, rm, rd, y, m, d, cd) == (NDAY_POST_DEF(ry, rm, rd, y, m, d, cd) ? 1 : 0))
+
 fields n_day(year_t y, month_t m, diff_t d, diff_t cd, hour_t hh, minute_t mm, second_t ss)
 __CPROVER_requires(1 <= m && m <= 12)
-__CPROVER_requires(ORD_MIN <= NDAY_T(y, m, d, cd) && NDAY_T(y, m, d, cd) <= ORD_MAX)
+__CPROVER_requires(NDAY_PRE(y, m, d, cd))
 __CPROVER_ensures(__CPROVER_return_value.hh == hh && __CPROVER_return_value.mm == mm && __CPROVER_return_value.ss == ss)
-__CPROVER_ensures(VALID_YMD(__CPROVER_return_value.y, __CPROVER_return_value.m, __CPROVER_return_value.d))
-__CPROVER_ensures(ORD(__CPROVER_return_value.y, __CPROVER_return_value.m, __CPROVER_return_value.d) == NDAY_T(y, m, d, cd))
+__CPROVER_ensures(1 <= __CPROVER_return_value.m && __CPROVER_return_value.m <= 12 && 1 <= __CPROVER_return_value.d && __CPROVER_return_value.d <= 31)
+__CPROVER_ensures(NDAY_POST_DEF(__CPROVER_return_value.y, __CPROVER_return_value.m, __CPROVER_return_value.d, y, m, d, cd))
+__CPROVER_ensures((cd == 0 && 1 <= d && d <= 28) ? (__CPROVER_return_value.y == y && __CPROVER_return_value.m == m && __CPROVER_return_value.d == d) : 1)
 __CPROVER_assigns();
 
 /* ---- the carry chain above n_day (C04) -------------------------------------------------------
@@ -408,5 +460,46 @@ bool ct_gt(fields lhs, fields rhs) __CPROVER_ensures(RV == (LEXLT(rhs, lhs) ? 1 
 bool ct_ge(fields lhs, fields rhs) __CPROVER_ensures(RV == (LEXLT(lhs, rhs) ? 0 : 1)) __CPROVER_assigns();
 bool ct_eq(fields lhs, fields rhs) __CPROVER_ensures(RV == (FIELDS_EQ(lhs, rhs) ? 1 : 0)) __CPROVER_assigns();
 bool ct_ne(fields lhs, fields rhs) __CPROVER_ensures(RV == (FIELDS_EQ(lhs, rhs) ? 0 : 1)) __CPROVER_assigns();
+
+/* ---- C17: weekday, day of year, next/prev weekday ---- */
+/* reduction of an ordinal to the 400-year cycle */
+#define lemma_ord_reduce_REQ(y, m, d) (1 <= (m) && (m) <= 12 && 1 <= (d) && (d) <= 31)
+#define lemma_ord_reduce_ENS(y, m, d) (ORD(y, m, d) == ORD((Z)((y) % 400), m, d) + (Z)146097 * (Z)((y) / 400) && \
+                                       (LEAP((Z)(y)) ? 1 : 0) == (LEAP((Z)((y) % 400)) ? 1 : 0) && -400 < (y) % 400 && (y) % 400 < 400)
+/* 146097 days are exactly 20871 weeks */
+#define lemma_fd7shift_REQ(x, k, c) (ZB(x, 100) && ZB(k, 60) && ZB(c, 30))
+#define lemma_fd7shift_ENS(x, k, c) (FD((Z)((x) + (Z)146097 * (k)) + (c), 7) == FD((Z)(x) + (c), 7) + 20871 * (k))
+#define lemma_wd_period_REQ(x, k) (ZB(x, 100) && ZB(k, 60))
+#define lemma_wd_period_ENS(x, k) (WD((x) + (Z)146097 * (k)) == WD(x))
+/* moving c days moves the weekday by c (0 <= c <= 13) */
+#define lemma_wd_add_REQ(x, c) (ZB(x, 100) && 0 <= (c) && (c) <= 13)
+#define lemma_wd_add_ENS(x, c) (WD((Z)(x) + (c)) == FM(WD(x) + (c), 7) && WD((Z)(x) - (c)) == FM(WD(x) - (c), 7))
+#define lemma_wd_cong_REQ(a, b) ((Z)(a) == (Z)(b))
+#define lemma_wd_cong_ENS(a, b) (WD(a) == WD(b))
+
+weekday get_weekday(fields cs)
+__CPROVER_requires(VALID_F(cs))
+__CPROVER_ensures((Z)(int)RV == WD(ORD(cs.y, cs.m, cs.d)))
+__CPROVER_assigns();
+
+int get_yearday(fields cs)
+__CPROVER_requires(VALID_F(cs))
+__CPROVER_ensures((Z)RV == ORD(cs.y, cs.m, cs.d) - ORD(cs.y, 1, 1) + 1)
+__CPROVER_ensures(1 <= RV && RV <= 365 + (LEAP(cs.y) ? 1 : 0))
+__CPROVER_assigns();
+
+fields next_weekday(fields cd, weekday wd)
+__CPROVER_requires(VALID_F(cd) && ALIGNED_day(cd) && 0 <= (int)wd && (int)wd <= 6 && REPR_day(DAYORD_F(cd) + 7))
+__CPROVER_ensures(VALID_F(RV) && ALIGNED_day(RV))
+__CPROVER_ensures(1 <= DAYORD_F(RV) - DAYORD_F(cd) && DAYORD_F(RV) - DAYORD_F(cd) <= 7)
+__CPROVER_ensures(WD(DAYORD_F(RV)) == (Z)(int)wd)
+__CPROVER_assigns();
+
+fields prev_weekday(fields cd, weekday wd)
+__CPROVER_requires(VALID_F(cd) && ALIGNED_day(cd) && 0 <= (int)wd && (int)wd <= 6 && REPR_day(DAYORD_F(cd) - 7))
+__CPROVER_ensures(VALID_F(RV) && ALIGNED_day(RV))
+__CPROVER_ensures(1 <= DAYORD_F(cd) - DAYORD_F(RV) && DAYORD_F(cd) - DAYORD_F(RV) <= 7)
+__CPROVER_ensures(WD(DAYORD_F(RV)) == (Z)(int)wd)
+__CPROVER_assigns();
 
 #pragma CPROVER check pop
